@@ -59,7 +59,8 @@ def gen_max_color(rng, i=None):
         g.codepoints = (cps[k],)
     return {
         "glyphs": glyphs,
-        "overrides": dict(color_format=fmt, output_file="in.ttf", keep_glyph_names=rng.random() < 0.5, _layout=len(glyphs) >= 3 and i % 8 in (0, 2, 5, 6)),
+        # font metrics by case index: default (advance 1275), narrower fixed advances, proportional
+        "overrides": dict([{}, dict(upem=1000, ascender=800, descender=-200, width=1000), dict(upem=2048, ascender=1900, descender=-500, width=0), dict(width=600)][i % 4], color_format=fmt, output_file="in.ttf", keep_glyph_names=rng.random() < 0.5, _layout=len(glyphs) >= 3 and i % 8 in (0, 2, 5, 6)),
         "bitmaps": i % 8 in (1, 4, 5),
         "keep_names": rng.random() < 0.5,
     }
